@@ -826,6 +826,7 @@ func (fr *Frame) execSlice(x *ssa.Slice, st *State) {
 		ref := fr.allocFresh(st, at.Elem(), Term{})
 		key := r.eng.heapKeyArr(at.Elem())
 		r.heapSet(st, key, store(r.heapGet(st, key), ref, arrv))
+		r.noteWrite(key, ref.S) // a write to an array allocated right here (loop frames: fresh-only)
 		r.noteAssume("array sliced into a fresh backing store (writes through the slice do not reach the array variable)")
 		fr.set(x, app("Slice", "mk_slice", ref, lo, app("Int", "-", hi, lo), app("Int", "-", intLit(at.Len()), lo)))
 		r.recordSliceArr(fr.vals[x], ref)
